@@ -467,6 +467,34 @@ func init() {
 		u := a[1].(iface).v.(rtype).t
 		return types.AssignableTo(t, u)
 	}
+	externals["(*reflect.rtype).ConvertibleTo"] = func(fr *frame, a []value) value {
+		t := a[0].(rtype).t
+		u := a[1].(iface).v.(rtype).t
+		return types.ConvertibleTo(t, u)
+	}
+	// Value.Convert: conversions that keep the representation (pointer to pointer, identical
+	// underlying types) and conversions to an interface type
+	externals["(reflect.Value).Convert"] = func(fr *frame, a []value) value {
+		src := a[0].(structure)
+		st := src[0].(rtype).t
+		dt := a[1].(iface).v.(rtype).t
+		if !types.ConvertibleTo(st, dt) {
+			panic(targetPanic{iface{fr.i.runtimeErrorString, "reflect.Value.Convert: value of type " + st.String() + " cannot be converted to type " + dt.String()}})
+		}
+		if _, isIface := dt.Underlying().(*types.Interface); isIface {
+			if _, srcIface := st.Underlying().(*types.Interface); srcIface {
+				return structure{rtype{dt}, src[1], (*value)(nil)}
+			}
+			return structure{rtype{dt}, iface{t: st, v: src[1]}, (*value)(nil)}
+		}
+		_, sp := st.Underlying().(*types.Pointer)
+		_, dp := dt.Underlying().(*types.Pointer)
+		if sp && dp || types.Identical(st.Underlying(), dt.Underlying()) {
+			return structure{rtype{dt}, src[1], (*value)(nil)}
+		}
+		fr.i.abort(abUnsupported, "reflect.Value.Convert from "+st.String()+" to "+dt.String())
+		return nil
+	}
 	externals["(*reflect.rtype).String"] = func(fr *frame, a []value) value { return a[0].(rtype).t.String() }
 	externals["reflect.ValueOf"] = func(fr *frame, a []value) value {
 		x := a[0].(iface)
